@@ -402,6 +402,15 @@ let pipe id c =
       propfail id (Printf.sprintf "tick %d developer %d: added+changed=%d removed+changed=%d but the non-merge commits there insert %d and delete %d lines"
                      (fst k) (snd k) (a + ch) (rr + ch) ei ed)) all_keys
 
+(* The extracted list functions are not tail recursive; a script of 10^6 edits needs more than the default 8 MB of
+   stack.  Re-execute once under a larger soft limit (the hard limit permitting; otherwise carry on as we are). *)
+let () =
+  if (try Sys.getenv "VERIF_C12_STACK" with Not_found -> "") = "" then begin
+    Unix.putenv "VERIF_C12_STACK" "1";
+    (try Unix.execv "/bin/sh" [| "sh"; "-c"; "ulimit -s 4000000 2>/dev/null || ulimit -s unlimited 2>/dev/null; exec \"$0\""; Sys.executable_name |]
+     with _ -> ())
+  end
+
 let () =
   iter_cases (fun id c ->
     match atom (nth (args (field "mode" c)) 0) with
